@@ -123,7 +123,7 @@ def run(ctx):
 
         for odd in BRACKET_ODD_HOSTS + ["[::1]", "[v1.x]", "[fe80::1%eth0]", "u:p@[::1]:81", "[::1]@h", "u[v1.x]:p@h:1",
                                         # zone ids that look like (repeated) escapes of '%' - RFC 6874 spellings and interface numbers
-                                        "[fe80::1%25251]", "[fe80::1%2525eth0]", "[fe80::1%252525]", "[fe80::1%25]", "[::1%2525]", "[fe80::1%251]", "[fe80::1%25eth0]", "[fe80::1%2541]", "[fe80::1%%]",
+                                        "[0:0::\uff41]", "[\uff10:0::beef]", "[2001:0db8:0:0::\uff26]", "[::\uff46\uff46]", "[\uff21::1]", "[fe80::1%25251]", "[fe80::1%2525eth0]", "[fe80::1%252525]", "[fe80::1%25]", "[::1%2525]", "[fe80::1%251]", "[fe80::1%25eth0]", "[fe80::1%2541]", "[fe80::1%%]",
                                         # a bracket pair in the userinfo AND an odd one in the host part
                                         "[a:b]@[[::1]", "[a:b]@[v1.x[y]", "[a:b]@[::1]]", "[a:b]@x[::1]", "[a:b]@[::1]", "[a:b]:[c:d]@[::2]:1", "[::1]@[::2]@[[::3]"]:
             for sch in ("http:", "foo:", ""):
